@@ -18,8 +18,12 @@ RULE = ("seeded generator of relay histories: (a) copyTwoWayEx/copyTwoWay of the
         "32767/32768/32769/40000), ending in EOF / error / silence, reads that carry data and an error together, zero reads; per-call "
         "virtual delays that decide the interleaving and which side finishes first; sink faults (error, short write with error, "
         "contract-breaking short write without error, at any write index); logger veto at any log index of either direction; logger "
-        "absent (io.Copy path); teardown delay. (b) end-to-end: real server + real client.TCP over loopback QUIC (fast open on/off) "
-        "against a scripted target. Non-trivial = bytes were forwarded in a direction and something other than a plain EOF ended the "
+        "absent (io.Copy path); teardown delay; request phase: the scripted client stream starts with the request frame (address 1..2048 bytes, "
+        "padding 0..4096, arriving whole, byte-wise, cut at every field boundary or at random) followed by the payload, whose first segment "
+        "(1 byte .. 40000, around bufio's 4096) arrives in the same segment as the tail of the request (fast open) or later; the harness parses "
+        "it with quicvarint.Read + protocol.ReadTCPRequest and relays from the same stream. (b) end-to-end: real server + real client.TCP over loopback QUIC (fast open on/off) "
+        "against a scripted target; with fast open the client writes its first bytes the moment TCP() returns (before the server can have "
+        "parsed the request), over several connections of one client. Non-trivial = bytes were forwarded in a direction and something other than a plain EOF ended the "
         "relay, or both directions forwarded. Distinct = distinct JSON case.")
 ASSUMPTIONS = [
     "sinks obey the io.Writer contract (n < len(p) only with a non-nil error): copyBufferLog ignores the count (hypothesis wok of the prefix/accounting theorems; quic-go streams and net.Conn do)",
@@ -97,6 +101,38 @@ def gen_relay(rng, big):
             "teardown": rng.choice([0, 0, rng.randrange(1, 2000)])}
 
 
+EARLY = [1, 2, 16, 52, 700, 1199, 4000, 4095, 4096, 4097, 5000, 32768, 40000]
+
+
+def gen_req(rng, big=False):
+    """relay history whose client stream starts with the request: request bytes and early payload can arrive in ONE read."""
+    c = gen_relay(rng, big)
+    up = c["up"]["reads"]
+    glue = rng.random() < 0.8
+    if not up or up[0]["n"] == 0 or rng.random() < 0.6:
+        up.insert(0, {"n": rng.choice(EARLY + [rng.randrange(1, 600), rng.randrange(1, 9000)]), "err": "", "delay": 0 if glue else _delay(rng)})
+        if len(up) == 1 and rng.random() < 0.5:
+            up[0]["err"] = "eof"
+    alen = rng.choice([1, 9, 15, 62, 63, 64, 300, rng.randrange(1, 400), 2048])
+    addr = ("".join(rng.choice("abcdefghijklmnopqrstuvwxyz0123456789.-") for _ in range(max(0, alen - 4))) + ":443")[-alen:]
+    pad = rng.choice([0, 0, 1, 63, 64, 100, rng.randrange(64, 513), rng.randrange(64, 513), 4096])
+    hlen = 2 + (1 if len(addr) < 64 else 2) + len(addr) + (1 if pad < 64 else 2) + pad
+    r = rng.random()
+    if r < 0.45:
+        segs = []                                   # the whole request (and, glued, the early payload) in one segment
+    elif r < 0.55:
+        segs = [1] * (hlen - 1)                     # byte-wise
+    elif r < 0.75:
+        b = [2, 2 + (1 if len(addr) < 64 else 2), hlen - pad - (1 if pad < 64 else 2), hlen - pad, hlen - 1]   # field boundaries
+        cut = sorted(set(x for x in rng.sample(b, rng.randrange(1, len(b) + 1)) if 0 < x < hlen))
+        segs = [y - x for x, y in zip([0] + cut, cut)]
+    else:
+        cut = sorted(set(rng.randrange(1, hlen) for _ in range(rng.randrange(1, 5))))
+        segs = [y - x for x, y in zip([0] + cut, cut)]
+    c["req"] = {"addr": addr, "pad": pad, "segs": segs, "glue": glue}
+    return c
+
+
 def fixed_cases():
     """Hand-picked histories: the non-vacuity example of DESIGN (veto in Down after two forwarded chunks), buffer boundaries,
     and the veto that arrives after the other direction has already ended the relay."""
@@ -116,6 +152,13 @@ def fixed_cases():
                "up": {"a": 3, "b": 1, "reads": [{"n": 0, "err": "eof", "delay": 500}], "writes": [], "logs": []},
                "down": {"a": 5, "b": 2, "reads": [{"n": 7, "err": "", "delay": 150}], "writes": [], "logs": [{"delay": 1000, "v": False}]},
                "teardown": 0})
+    # fast open: request and first payload bytes in one segment, for both relay paths; then around bufio's default buffer
+    for mode in ("logged", "fast"):
+        for n, end in ((52, "eof"), (52, ""), (4096, "eof"), (40000, "eof")):
+            cs.append({"k": "relay", "mode": mode, "req": {"addr": "example.com:443", "pad": 100, "segs": [], "glue": True},
+                       "up": {"a": 3, "b": 7, "reads": [{"n": n, "err": end, "delay": 0}] + ([] if end else [{"n": 9, "err": "eof", "delay": 700}]),
+                              "writes": [], "logs": []},
+                       "down": {"a": 7, "b": 9, "reads": [{"n": 5, "err": "", "delay": 1}], "writes": [], "logs": []}, "teardown": 0})
     return cs
 
 
@@ -132,6 +175,10 @@ def e2e_cases(rng, tier):
         for lg in (True, False):
             cs.append(mk(fastopen=fo, logger=lg, up_n=rng.choice([0, 1, 5000, 40000]), down_n=rng.choice([1, 33000, 70000])))
         cs.append(mk(fastopen=fo, veto_at=rng.choice([0, 1, 2, 3])))
+    # fast open, the first chunk written the moment TCP() returns: early payload of every size class (a few bytes, one
+    # packet, several packets, beyond a 4 KiB read-ahead) right behind the request
+    for n, ch in ((16, 16), (52, 52), (3000, 700), (1199, 1199), (9000, 5000), (2000, 1)):
+        cs.append(mk(fastopen=True, logger=rng.random() < 0.7, up_n=n, up_chunk=ch, down_n=rng.choice([1, 3000]), down_chunk=1000))
     if tier != "quick":
         for _ in range(40):
             cs.append(mk(fastopen=rng.random() < 0.5, logger=rng.random() < 0.7, up_n=rng.randrange(0, 100000),
@@ -151,6 +198,10 @@ def gen(rng, tier):
         cases.append(gen_relay(rng, False))
     for _ in range(14 * scale):
         cases.append(gen_relay(rng, True))
+    for _ in range(70 * scale):
+        cases.append(gen_req(rng, False))
+    for _ in range(6 * scale):
+        cases.append(gen_req(rng, True))
     return cases
 
 
@@ -193,7 +244,11 @@ def to_coq(c, o):
         return None
     if any(str(ev[-1]).startswith("other:") for ev in o["trace"] if ev[0] in ("R", "W", "F")):
         return None
-    tr = "[" + ";".join(obs_term(c, ev) for ev in o["trace"]) + "]"
+    if c.get("req") and o.get("req_err") != "nil":
+        return None       # request rejected: no relay (judged by the harness verdict)
+    # request phase ("Q": a Read before the copy started, "A": request accepted) is outside the LTS of the copy; the offsets of
+    # the relay's Reads tie it in: check requires them to be consecutive from the first byte behind the request
+    tr = "[" + ";".join(obs_term(c, ev) for ev in o["trace"] if ev[0] not in ("Q", "A")) + "]"
     return "CRelay %s %s true %d %d %d %d %d %d" % ("Logged" if c["mode"] == "logged" else "Fast", tr, o["tx"], o["rx"],
                                                   o["sink_up"][0], o["sink_up"][1], o["sink_down"][0], o["sink_down"][1])
 
@@ -205,7 +260,7 @@ def klass(c, o):
     f = o.get("facts") or {}
     if o.get("panic"):
         return "panic"
-    tags = [c["k"], c["mode"], "ret=" + str(o.get("ret"))]
+    tags = [c["k"] + ("+req" + (":glued" if c["req"]["glue"] else "") if c.get("req") else ""), c["mode"], "ret=" + str(o.get("ret"))]
     if f.get("veto"):
         tags.append("veto" + ("U" if f.get("veto_U") else "") + ("D" if f.get("veto_D") else ""))
     if f.get("wfault_U") or f.get("wfault_D"):
